@@ -10,9 +10,17 @@ for d in sorted(os.listdir(root)):
         continue
     n = d.split("-")[1]
     wt = "/tmp/seedwt_%s_%s" % (pid, n)
-    if not os.path.isdir(wt):
-        subprocess.run(["/verif/tools/mk_worktree.sh", wt], check=True, capture_output=True)
-        subprocess.run(["git", "apply", os.path.join(root, d, "patch.diff")], cwd=wt, check=True)
+    # always a fresh worktree of the CURRENT /repo HEAD (fix commits may have landed since the seed was stored)
+    subprocess.run(["git", "-C", "/repo", "worktree", "remove", "--force", wt], capture_output=True)
+    subprocess.run(["/verif/tools/mk_worktree.sh", wt], check=True, capture_output=True)
+    ap = subprocess.run(["git", "apply", os.path.join(root, d, "patch.diff")], cwd=wt, capture_output=True, text=True)
+    if ap.returncode != 0:
+        json.dump({"applies": False, "error": ap.stderr[-400:]}, open(os.path.join(root, d, "result_%s.json" % tier), "w"), indent=1)
+        print(d, "PATCH DOES NOT APPLY to current HEAD")
+        subprocess.run(["git", "-C", "/repo", "worktree", "remove", "--force", wt], capture_output=True)
+        continue
+    dm = subprocess.run(["/venv/bin/python", os.path.join(root, d, "demo.py")], cwd=wt, capture_output=True, text=True,
+                        env=dict(os.environ, PYTHONPATH=wt, REPO_UNDER_TEST=wt), timeout=900)
     t0 = time.time()
     p = subprocess.run(["./check", pid, "--tier", tier], cwd="/verif", env=dict(os.environ, VERIF_REPO=wt), capture_output=True, text=True)
     lines = [l for l in p.stdout.splitlines() if l.startswith(("VIOLATION", "KNOWN-FINDING", "OK"))]
@@ -20,8 +28,10 @@ for d in sorted(os.listdir(root)):
     res = {"check": "./check %s --tier %s (VERIF_REPO=worktree with patch applied)" % (pid, tier), "exit": p.returncode,
            "caught": p.returncode == 1 and any(l.startswith("VIOLATION") for l in lines),
            "no_failing_input_found": any("no-failing-input-found" in l for l in lines),
-           "verdict_lines": lines, "detail": detail, "wall_s": round(time.time() - t0, 1)}
+           "verdict_lines": lines, "detail": detail, "wall_s": round(time.time() - t0, 1),
+           "repo_head": os.popen("git -C /repo rev-parse --short HEAD").read().strip(), "demo_rc_with_patch_on_head": dm.returncode}
     json.dump(res, open(os.path.join(root, d, "result_%s.json" % tier), "w"), indent=1)
-    print(d, "CAUGHT" if res["caught"] else "MISSED", "(no-failing-input)" if res["no_failing_input_found"] else "", res["wall_s"], "s", detail[:1])
+    subprocess.run(["git", "-C", "/repo", "worktree", "remove", "--force", wt], capture_output=True)
+    print(d, "CAUGHT" if res["caught"] else "MISSED", "demo_rc=%d" % dm.returncode, "(no-failing-input)" if res["no_failing_input_found"] else "", res["wall_s"], "s", detail[:1])
 # restore Gen/.vo state for the real repo
 subprocess.run(["./check", pid, "--tier", "quick"], cwd="/verif", capture_output=True, text=True)
